@@ -143,7 +143,7 @@ class is_type:
 @spec
 def fix_ok(f):
     """what LintFix.__init__ and its callers guarantee: a known edit type; `replace` carries an edit list -- and (see
-    NOT_COVERED) a NON-EMPTY one when the anchor has source length"""
+    TRUSTED) a NON-EMPTY one when the anchor has source length"""
     return (f.edit_type in ("create_before", "create_after", "replace", "delete")
             and implies(f.edit_type == "replace", f.edit is not None)
             and (True if f.anchor.pos_marker is None or f.edit is None else
